@@ -201,6 +201,94 @@ CLAIMS["C06"].update(
          "proof lands.",
     technique="Lean 4 proofs about the kernel model's deadline functions + discrete-event trace validation")
 
+CLAIMS["C05"].update(
+    category="proof",
+    text="15 Lean theorems over every reachable state of the kernel model (via the well-formedness invariant "
+         "WF, itself proved for all event lists): for every task, cancelling() + user uncancel() calls = native "
+         "cancel requests + deliveries from scopes hosted by other tasks + dropped own deliveries + the sum of "
+         "pending uncancellations of the active scopes it hosts (C05_count), so a scope never owes more than "
+         "the task's count; an absorbing exit lowers cancelling() by exactly the scope's pending count with no "
+         "truncation, hands it to a same-host parent otherwise; leaving the outermost scope restores the "
+         "native count; exit restores the current-scope pointer, deactivates the scope, clears host, timer and "
+         "pending, removes its timer handle; a leftover delivery callback of an exited scope stops at its next "
+         "run without rescheduling. Trace validation of every cancelling() value and a residue oracle (timers "
+         "firing after exit, busy callbacks after the program ended).",
+    technique="Lean 4 invariant proof over the kernel LTS + trace validation + residue oracle")
+CLAIMS["C14"] = dict(
+    text="23 Lean theorems over all event lists of an LTS of to_thread.run_sync (embedded limiter, caller and "
+         "thread program counters, idle-worker stack): a running non-abandoned function holds a token, tokens "
+         "<= total, token given back on every exit path, the caller receives exactly what the thread function "
+         "produced, without abandon_on_cancel the caller resumes only after the function finished and a "
+         "cancellation that arrived meanwhile stays pending, abandon only if abandonable, one job per worker, "
+         "LIFO reuse, check_cancelled raises iff the host chain is effectively cancelled. PARTIAL: real "
+         "threads, released by the harness through gates in all completion orders on asyncio and uvloop, are "
+         "compared with the model at settle points and judged by an oracle.",
+    design="5/C14",
+    note=BASE_NOTE + "Modelled, not verified: OS thread scheduling and the GIL, queue.Queue hand-over, "
+         "loop.call_soon_threadsafe, contextvars.copy_context (oracle only), worker pruning by idle time; the "
+         "events threadSkip/deliver/prune are covered by theorems only (gated real threads cannot force them).",
+    technique="Lean 4 invariant proof over an LTS + differential testing against real worker threads")
+CLAIMS["C15"] = dict(
+    text="24 Lean theorems over all event lists of a BlockingPortal LTS: each call executes its callable at "
+         "most once and exactly once when begun, a refused call never runs, its Future is set at most once, "
+         "carries the callable's outcome (or caller cancellation) and is never overwritten, start_task's "
+         "status value is kept, cancelling a future affects only that call and reaches its scope, refusal "
+         "after stop, the portal's state is monotone, exit happens only when no call is spawned or running "
+         "and every resolved call has a done future. PARTIAL: real caller threads against a real portal "
+         "thread, with parked loops to pile up requests, are compared with the model and judged by an oracle.",
+    design="5/C15",
+    note=BASE_NOTE + "Modelled, not verified: caller-thread scheduling, concurrent.futures.Future internals "
+         "(the check-then-set in _call_func is taken as atomic), call_soon_threadsafe, thread.join; the join of "
+         "the portal's task group is an instance of C01 and is the enabling condition of `exit`. A call "
+         "accepted before stop() whose task begins after it cannot be cancelled through its future (modelled "
+         "as byStop; notes/repro_portal_future_cancel_after_stop.py) - recorded as an observation.",
+    technique="Lean 4 invariant proof over an LTS + differential testing against real threads")
+CLAIMS["C17"] = dict(
+    text="10 Lean theorems over all event lists of the TLS pump loop against an abstract record engine (any "
+         "record sizes, fragmentation/coalescing, cut points, both standard_compatible values): no transport "
+         "read starts with unflushed output, receive returns 1..max_bytes bytes, delivered + buffered "
+         "plaintext = application data of the consumed records in order, the wire is the encoding of what send "
+         "accepted, end-to-end prefix faithfulness by unique parsing, EndOfStream under standard_compatible "
+         "only after close_notify, BrokenResourceError exactly for unexpected EOF with the flag set, truncation "
+         "ends every waiting call at once. PARTIAL: real TLS 1.2/1.3 sessions over a re-chunking, truncating "
+         "in-memory transport (every byte offset of short sessions in the thorough tier) are compared on "
+         "outcomes and judged by an oracle.",
+    design="5/C17",
+    note=BASE_NOTE + "Modelled, not verified: OpenSSL (replaced by the abstract engine: complete-record "
+         "reads, WantRead, close_notify, BIO EOF as unexpected EOF, a three-flight handshake), the ssl "
+         "module's exception mapping, transport_stream.send as atomic.",
+    technique="Lean 4 invariant proof over an LTS with an abstract record engine + differential testing on real TLS")
+CLAIMS["C18"] = dict(
+    text="27 Lean theorems over all event lists of the StreamProtocol + SocketStream LTS and all scripts of the "
+         "UNIX raw-socket loops: returned chunks concatenate to a prefix of the received bytes and to all of "
+         "them once the queue is empty, each chunk has 1..max_bytes bytes with the remainder pushed back to the "
+         "front, EndOfStream only at the end, closed-stream semantics (send refused, receive drains without "
+         "blocking), BusyResourceError without side effects, send returns only with the write gate open, "
+         "item-wise in-order writes, reader-side back-pressure (the transport reads only while a receive is "
+         "waiting), no lost wake-up. PARTIAL: real TCP-loopback and UNIX sockets on asyncio and uvloop (floods "
+         "against stalled readers, full duplex, EOF, close, concurrent use) are judged by an oracle; the "
+         "protocol is also driven through a fake transport and replayed line by line in the model.",
+    design="5/C18",
+    note=BASE_NOTE + "Modelled, not verified: the kernel's stream sockets, the discipline of asyncio's "
+         "selector transport and of uvloop's transport (data_received only while reading, pause/resume "
+         "alternate, connection_lost last), the fake transport's mimicry of write after EOF/loss.",
+    technique="Lean 4 invariant proof over an LTS + differential testing on real sockets")
+CLAIMS["C19"] = dict(
+    text="27 Lean theorems: for each function of anyio.itertools a Lean transcription of AnyIO's control flow "
+         "equals the textbook definition of the stdlib function for all arguments (including invalid ones: same "
+         "error class) and all element lists; reduce equals a left fold on both branches; for tee an LTS "
+         "invariant over all interleavings of any number of consumers shows each consumer observes exactly the "
+         "source sequence and the source is advanced once per element plus once for the end. Four-way "
+         "differential testing (anyio over sync and async sources, CPython's itertools/functools, the model's "
+         "impl and spec) ties both Lean definitions to the real code and to the real stdlib; tee schedules are "
+         "enumerated and replayed in the model.",
+    design="5/C19",
+    note=BASE_NOTE + "CPython's combinations/permutations/product are parameters of the theorems (trusted, "
+         "two stated hypotheses checked against CPython by the harness); batched(strict=) follows the 3.13 "
+         "documentation's equivalent; callbacks are a fixed family of pure functions; tee is modelled without "
+         "cancellation.",
+    technique="Lean 4 equational proofs (impl = spec) and an LTS invariant for tee + differential testing")
+
 PENDING = {
 }
 
